@@ -28,6 +28,14 @@ def order_case(values, i, j):
     return ''
 
 
+class Level(int):
+    """ a number carried by a subclass of int (what enum.IntEnum members, numpy integers ... are) """
+
+
+class Money(float):
+    """ a number carried by a subclass of float """
+
+
 def rank(v):
     import datetime
     if isinstance(v, bool):
@@ -54,7 +62,8 @@ def extra(report, env):
               d0, d0 + datetime.timedelta(seconds=1), d0 + datetime.timedelta(milliseconds=2), datetime.datetime(1900, 3, 1), datetime.datetime(9999, 12, 31),
               datetime.datetime(1900, 1, 1), datetime.datetime(1900, 1, 1, 12), datetime.datetime(1899, 12, 31, 12), datetime.datetime(1899, 12, 30), datetime.datetime(1800, 1, 1), 0.25, 0.75,
               '', 'a', 'A', 'b', 'ab', '2019-01-01', '2019-11-20', '50000', '12', 'TRUE', 'z', 'é',
-              True, False, None]
+              True, False, None,
+              Level(3), Level(-1), Money(2.25), Money(43789.0)]          # numbers are numbers whatever class carries them
     cases = 0
     fails = []
 
